@@ -40,6 +40,20 @@ func simSchedStats() (hash, picks, yields uint64) {
 //go:linkname simSetYield
 func simSetYield(num, den uint64) { simYieldNum, simYieldDen = num, den }
 
+// simStallDen/simStallMaxNS: "execution takes time" fault. Virtual time stands
+// still while goroutines run, so no instant ever passes between two statements
+// of one goroutine unless it blocks; with probability 1/simStallDen a schedule
+// point (lock/unlock) also sleeps for a PRNG-chosen duration up to
+// simStallMaxNS - the goroutine was descheduled, the machine was slow.
+var simStallDen, simStallMaxNS uint64
+var simStalls uint64
+
+//go:linkname simSetStall
+func simSetStall(den, maxNS uint64) { simStallDen, simStallMaxNS = den, maxNS; simStalls = 0 }
+
+//go:linkname simStallCount
+func simStallCount() uint64 { return simStalls }
+
 //go:nosplit
 func simRand() uint64 {
 	x := simSchedState
@@ -127,6 +141,10 @@ func sync_simYield() {
 	if simYieldNum != 0 && (simRand()>>33)%simYieldDen < simYieldNum {
 		simYields++
 		goyield()
+	}
+	if simStallDen != 0 && simStallMaxNS != 0 && (simRand()>>33)%simStallDen == 0 {
+		simStalls++
+		timeSleep(int64(1 + (simRand()>>33)%simStallMaxNS))
 	}
 }
 
